@@ -3,6 +3,7 @@ from __future__ import annotations
 
 import ast
 
+from ..core import representatives
 from ..model import ClassInfo, EnumMember
 from ..trace import Effect, Try, walk
 from ..values import (BytesV, ClassV, DictV, InputV, ListV, ObjV, SelfV, Sym, Unknown, is_const, show)
@@ -113,10 +114,8 @@ def check(ctx, report):
                        'default %s is a %s evaluated once and shared by every instance created without this argument' % (
                            ast.unparse(node)[:70], kind))
     # ---- R3
-    for c in model.concrete_parsables():
+    for c in representatives(ctx, '_parse'):
         f = c.resolve('_parse')
-        if not ctx.thorough and f.cls is not c:
-            continue
         res = ctx.canon.layout(c, 'parse').result
         report.count('C13.R3')
         objs = []
